@@ -418,6 +418,31 @@ main(int argc, char **argv)
 		vf_stat("bitlengths", 1);
 		vf_stat("moduli_patterns", npat_run);
 	}
+
+	/* exponents as long as the modulus for RSA-size moduli (the suites above bound the exponent by a cost budget):
+	   modpow_opt of i15 / i31 / i62 with the smallest and the largest temporary area for 2048, 3072 and 4096 bits,
+	   plain modpow of i15 / i31 for 2048 bits: 20 calls, dealt round-robin from the last worker downwards
+	   (--full k replays the items of one bit length on one process) */
+	{
+		static const unsigned fk[3] = { 4096, 3072, 2048 };
+		long long fullonly = vf_argi(argc, argv, "--full", 0);
+		unsigned item = 0;
+		int ki, v, mode;
+		for (ki = 0; ki < 3; ki ++) for (v = 0; v < 4; v ++) for (mode = 1; mode <= 2; mode ++) {
+			int mine;
+			if (v == 3 && (fk[ki] != 2048)) continue;
+			item ++;
+			mine = fullonly ? (fk[ki] == (unsigned)fullonly) : (!only && (item % (unsigned)nworkers) == (unsigned)(nworkers - 1 - worker));
+			if (!mine) continue;
+			vf_rng_init(&R, g_seed, 0xFA110000ull + item);
+			switch (v) {
+			case 0: modpow_full_i15(fk[ki], 0, mode); break;
+			case 1: modpow_full_i31(fk[ki], 0, mode); break;
+			case 2: modpow_full_i31(fk[ki], 1, mode); break;
+			default: if (mode == 1) modpow_full_i15(fk[ki], 3, 1); else modpow_full_i31(fk[ki], 3, 1); break;
+			}
+		}
+	}
 	vf_done();
 	return 0;
 }
